@@ -15,6 +15,7 @@ type scopeOcc struct {
 	sl, sc, el, ec   int
 	kind             string // D W U
 	s, ms, me, class string
+	t                string // traversal-time binding (LuaHelper's own passes)
 }
 
 func parseScopeAnswer(ans string) ([]scopeOcc, error) {
@@ -28,7 +29,7 @@ func parseScopeAnswer(ans string) ([]scopeOcc, error) {
 	}
 	for _, it := range strings.Split(body, ";") {
 		f := strings.Split(it, ",")
-		if len(f) != 6 {
+		if len(f) != 7 {
 			return nil, fmt.Errorf("bad item %q", it)
 		}
 		var o scopeOcc
@@ -40,6 +41,7 @@ func parseScopeAnswer(ans string) ([]scopeOcc, error) {
 		o.ms = strings.TrimPrefix(f[3], "Ms=")
 		o.me = strings.TrimPrefix(f[4], "Me=")
 		o.class = strings.TrimPrefix(f[5], "K=")
+		o.t = strings.TrimPrefix(f[6], "T=")
 		out = append(out, o)
 	}
 	return out, nil
